@@ -1,0 +1,162 @@
+//go:build verif
+
+package channels
+
+// Contracts for property C03 (effective access = admin grants + document grants + public, through roles):
+// the TimedSet algebra every access computation is built from. Comment-only; read by /verif/engine.
+
+//@ props C03
+
+//@ props C03 C02
+//@ func TimedSet.Contains
+//@   pure
+//@ props C03
+
+//@ func NewVbSimpleSequence
+//@   pure
+
+//@ func TimedSet.AddChannel
+//@   safety on
+//@   requires set != nil
+//@   modifies elems(set)
+//@   ensures[keys]    forall k string :: {k in set} (k in set) <==> old(k in set) || (k == channelName && atSequence > 0)
+//@   ensures[value]   atSequence > 0 ==> set[channelName].Sequence == ite(old(set[channelName].Sequence) == 0, atSequence, min(old(set[channelName].Sequence), atSequence))
+//@   ensures[others]  forall k string :: {set[k]} k != channelName ==> set[k] == old(set[k])
+//@   ensures[noop]    !result ==> set[channelName] == old(set[channelName])
+//@   ensures[absent]  !old(channelName in set) && atSequence > 0 ==> set[channelName].Sequence == atSequence
+//@   ensures[changed] result <==> atSequence > 0 && (old(set[channelName].Sequence) == 0 || atSequence < old(set[channelName].Sequence))
+
+// ---- copies and conversions ----
+
+//@ func NewVbSequence
+//@   ensures[value] result.Sequence == sequence && result.VbNo != nil && *result.VbNo == vbNo
+//@   ensures[fresh] !old(allocated(now(result.VbNo)))
+
+//@ func VbSequence.Copy
+//@   ensures[seq] result.Sequence == vbs.Sequence
+//@   ensures[vb]  (result.VbNo == nil <==> vbs.VbNo == nil) && (vbs.VbNo != nil ==> *result.VbNo == *vbs.VbNo)
+
+// a TimedSet map is exactly as it was on entry
+//@ pred tsUnchanged(s TimedSet) bool
+//@   is forall k string :: {k in s} {s[k]} ((k in s) <==> old(k in s)) && s[k] == old(s[k])
+
+// AtSequence: a fresh set with exactly the members of the Set, all stamped with the sequence.
+//@ func AtSequence
+//@   safety on
+//@   ensures[fresh]  result != nil && !old(allocated(now(result)))
+//@   ensures[keys]   forall k string :: {k in result} (k in result) <==> (k in set)
+//@   ensures[values] forall k string :: {result[k]} (k in set) ==> result[k].Sequence == sequence && result[k].VbNo == nil
+//@   loop 1 invariant[keys]   forall k string :: {k in result} (k in result) <==> (k in #visited)
+//@   loop 1 invariant[values] forall k string :: {result[k]} (k in #visited) ==> result[k].Sequence == sequence && result[k].VbNo == nil
+//@   loop 1 invariant[vis]    forall k string :: {k in #visited} (k in #visited) ==> (k in set)
+
+// Copy: a fresh set with the same members and sequences; the receiver is not touched.
+//@ func TimedSet.Copy
+//@   safety on
+//@   ensures[fresh]  result != nil && !old(allocated(now(result)))
+//@   ensures[keys]   forall k string :: {k in result} (k in result) <==> (k in set)
+//@   ensures[values] forall k string :: {result[k]} (k in set) ==> result[k].Sequence == set[k].Sequence && (result[k].VbNo == nil <==> set[k].VbNo == nil)
+//@   ensures[frame]  tsUnchanged(set)
+//@   loop 1 invariant[frame]  tsUnchanged(set)
+//@   loop 1 invariant[keys]   forall k string :: {k in result} (k in result) <==> (k in #visited)
+//@   loop 1 invariant[values] forall k string :: {result[k]} (k in #visited) ==> result[k].Sequence == set[k].Sequence && (result[k].VbNo == nil <==> set[k].VbNo == nil)
+//@   loop 1 invariant[vis]    forall k string :: {k in #visited} (k in #visited) ==> (k in set)
+
+// ---- merging ----
+
+// An entry of the merged-in set contributes iff it carries a vbucket or its effective sequence is non-zero
+// (AddChannel ignores sequence 0: "0" means "no access" throughout TimedSet).
+//@ pred contributes(v VbSequence, at uint64) bool
+//@   is v.VbNo != nil || max(v.Sequence, at) > 0
+
+// the sequence an entry has after merging v (clamped to at) into an entry with sequence cur (0 = absent)
+//@ pred mergedSeq(cur uint64, v VbSequence, at uint64) uint64
+//@   is ite(v.VbNo != nil, v.Sequence, ite(cur == 0, max(v.Sequence, at), min(cur, max(v.Sequence, at))))
+
+// AddAtSequence: key set becomes the union; on collision the earliest sequence wins, where the merged-in
+// entries count as granted no earlier than atSequence.
+//@ func TimedSet.AddAtSequence
+//@   safety on
+//@   requires set != nil && set != other
+//@   modifies elems(set)
+//@   ensures[other]   tsUnchanged(other)
+//@   ensures[keys]    forall k string :: {k in set} (k in set) <==> old(k in set) || ((k in other) && contributes(other[k], atSequence))
+//@   ensures[values]  forall k string :: {set[k]} (k in other) && contributes(other[k], atSequence) ==> set[k].Sequence == mergedSeq(old(set[k].Sequence), other[k], atSequence)
+//@   ensures[others]  forall k string :: {set[k]} !((k in other) && contributes(other[k], atSequence)) ==> set[k] == old(set[k])
+//@   ensures[noop]    !result ==> tsUnchanged(set)
+//@   loop 1 invariant[other]   tsUnchanged(other)
+//@   loop 1 invariant[vis]     forall k string :: {k in #visited} (k in #visited) ==> (k in other)
+//@   loop 1 invariant[keys]    forall k string :: {k in set} (k in set) <==> old(k in set) || ((k in #visited) && contributes(other[k], atSequence))
+//@   loop 1 invariant[values]  forall k string :: {set[k]} (k in #visited) && contributes(other[k], atSequence) ==> set[k].Sequence == mergedSeq(old(set[k].Sequence), other[k], atSequence)
+//@   loop 1 invariant[others]  forall k string :: {set[k]} !((k in #visited) && contributes(other[k], atSequence)) ==> set[k] == old(set[k])
+//@   loop 1 invariant[noop]    !changed ==> tsUnchanged(set)
+
+//@ func TimedSet.Add
+//@   requires set != nil && set != other
+//@   modifies elems(set)
+//@   ensures[other]   tsUnchanged(other)
+//@   ensures[keys]    forall k string :: {k in set} (k in set) <==> old(k in set) || ((k in other) && contributes(other[k], 0))
+//@   ensures[values]  forall k string :: {set[k]} (k in other) && contributes(other[k], 0) ==> set[k].Sequence == mergedSeq(old(set[k].Sequence), other[k], 0)
+//@   ensures[others]  forall k string :: {set[k]} !((k in other) && contributes(other[k], 0)) ==> set[k] == old(set[k])
+//@   ensures[noop]    !result ==> tsUnchanged(set)
+
+// UpdateAtSequence: membership becomes exactly `other`; retained members keep their entry, new members get the
+// sequence; the result says whether membership changed.
+//@ func TimedSet.UpdateAtSequence
+//@   safety on
+//@   requires set != nil
+//@   modifies elems(set)
+//@   ensures[keys]     forall k string :: {k in set} (k in set) <==> (k in other)
+//@   ensures[retained] forall k string :: {set[k]} old(k in set) && (k in other) ==> set[k] == old(set[k])
+//@   ensures[new]      forall k string :: {set[k]} !old(k in set) && (k in other) ==> set[k].Sequence == sequence && set[k].VbNo == nil
+//@   ensures[same]     !result ==> (forall k string :: {k in other} {old(k in set)} old(k in set) <==> (k in other))
+//@   ensures[changed]  result ==> (exists k string :: {k in other} old(k in set) != (k in other))
+//@   loop 1 invariant[keys]     forall k string :: {k in set} (k in set) <==> old(k in set) && !((k in #visited) && !(k in other))
+//@   loop 1 invariant[vals]     forall k string :: {set[k]} (k in set) ==> set[k] == old(set[k])
+//@   loop 1 invariant[same]     !changed ==> (forall k string :: {k in #visited} (k in #visited) ==> (k in other))
+//@   loop 1 invariant[changed]  changed ==> (exists k string :: {k in other} old(k in set) != (k in other))
+//@   loop 1 invariant[vis]      forall k string :: {k in #visited} (k in #visited) ==> old(k in set)
+//@   loop 2 invariant[keys]     forall k string :: {k in set} (k in set) <==> (old(k in set) && (k in other)) || (k in #visited)
+//@   loop 2 invariant[retained] forall k string :: {set[k]} old(k in set) && (k in other) ==> set[k] == old(set[k])
+//@   loop 2 invariant[new]      forall k string :: {set[k]} !old(k in set) && (k in #visited) ==> set[k].Sequence == sequence && set[k].VbNo == nil
+//@   loop 2 invariant[same]     !changed ==> (forall k string :: {old(k in set)} old(k in set) ==> (k in other)) && (forall k string :: {k in #visited} (k in #visited) ==> old(k in set))
+//@   loop 2 invariant[changed]  changed ==> (exists k string :: {k in other} old(k in set) != (k in other))
+//@   loop 2 invariant[vis]      forall k string :: {k in #visited} (k in #visited) ==> (k in other)
+
+// Equals: same membership (sequences ignored).
+//@ func TimedSet.Equals
+//@   safety on
+//@   ensures[iff-1] result ==> (forall k string :: {k in set} {k in other} (k in set) <==> (k in other))
+//@   ensures[iff-2] !result ==> (exists k string :: {k in other} (k in set) != (k in other))
+//@   loop 1 invariant[sub] forall k string :: {k in #visited} (k in #visited) ==> (k in other)
+//@   loop 2 invariant[sub] forall k string :: {k in set} (k in set) ==> (k in other)
+//@   loop 2 invariant[sup] forall k string :: {k in #visited} (k in #visited) ==> (k in set)
+
+// AllKeys: the slice lists exactly the members.
+//@ func TimedSet.AllKeys
+//@   safety on
+//@   ensures[sound]    forall i int :: {result[i]} 0 <= i && i < len(result) ==> (result[i] in set)
+//@   ensures[complete] forall k string :: {k in set} (k in set) ==> elem(result, k)
+//@   loop 1 invariant[sound]    forall i int :: {result[i]} 0 <= i && i < len(result) ==> (result[i] in set)
+//@   loop 1 invariant[complete] forall k string :: {k in #visited} (k in #visited) ==> elem(result, k)
+
+// AsSet: same members; nil stays nil.
+//@ func TimedSet.AsSet
+//@   safety on
+//@   ensures[nil]  set == nil <==> result == nil
+//@   ensures[keys] forall k string :: {k in result} (k in result) <==> (k in set)
+//@   loop 1 invariant[sound]    forall i int :: {result[i]} 0 <= i && i < len(result) ==> (result[i] in set)
+//@   loop 1 invariant[complete] forall k string :: {k in #visited} (k in #visited) ==> elem(result, k)
+
+// ---- channel-name sets ----
+
+// SetFromArray with KeepStar: on success a fresh set with exactly the listed names; on error (an invalid name) no set.
+//@ func SetFromArray
+//@   ensures[keep-nonnil] isNilErr(result1) && mode == KeepStar ==> result0 != nil
+//@   ensures[keep-fresh] isNilErr(result1) && mode == KeepStar ==> !old(allocated(now(result0)))
+//@   ensures[keep-sound]    isNilErr(result1) && mode == KeepStar ==> (forall k string :: {k in result0} (k in result0) ==> elem(names, k))
+//@   ensures[keep-complete] isNilErr(result1) && mode == KeepStar ==> (forall i int :: {names[i]} 0 <= i && i < len(names) ==> (names[i] in result0))
+//@   ensures[error]      !isNilErr(result1) ==> result0 == nil
+
+//@ func illegalChannelError
+//@   ensures[non-nil] !isNilErr(result)
